@@ -21,3 +21,10 @@ Lemma relays_spawn_goroutines :
   spawns "client.RouteTCP" = true /\ spawns "client.RouteUDP" = true /\ spawns "server.serveSession" = true
   /\ spawns "multiplex.switchboard.addConn" = true.
 Proof. repeat split; vm_compute; reflexivity. Qed.
+
+(* nor is there a buffer at package level that relays running in different goroutines could
+   share.  Reviewed exceptions: three function values of unknown static type
+   (binary.BigEndian.Uint16/Uint32, base64's EncodeToString) and a read-only table of strings. *)
+Lemma no_buffer_at_package_level :
+  no_package_level_buffers ["server.b64"; "server.u16"; "server.u32"; "client.topLevelDomains"] = true.
+Proof. vm_compute. reflexivity. Qed.
